@@ -17,6 +17,51 @@ type Op struct {
 	Flags   uint  `json:"flags"`
 	EndLast bool  `json:"end_last"`
 	UseInit bool  `json:"use_init"` // reset with Init instead of Reset where the type has both
+	Switch  bool  `json:"switch"`   // re-initialise with other arrays (capacities below; -1 = built-in / none)
+	NewHdr  int   `json:"new_hdr"`
+	NewCt   int   `json:"new_ct"`
+	NewP    int   `json:"new_p"`
+}
+
+// reinit re-initialises the object with new caller arrays, the way a caller would
+// (Init where the type resets itself in Init, Reset + Init / field assignment otherwise).
+func (s *Stepper) reinit(h, c, p int) {
+	switch s.cfg.Kind {
+	case KMsg:
+		s.msg.Init(nil, mkHdrs(h), mkContacts(c))
+	case KHdrLinePV:
+		s.hdr.Reset()
+		s.pv.Init(mkContacts(c))
+	case KHeaders:
+		s.hl.Reset()
+		s.hl.Hdrs = mkHdrs(h)
+		s.pv.Init(mkContacts(c))
+	case KHeadersNil:
+		s.hl.Reset()
+		s.hl.Hdrs = mkHdrs(h)
+	case KContacts:
+		s.contacts.Reset()
+		s.contacts.Init(mkContacts(c))
+	case KURIParams:
+		s.uparams.Reset()
+		if p >= 0 {
+			s.uparams.Init(make([]sipsp.URIParam, p))
+		} else {
+			s.uparams.Init(nil)
+		}
+	case KURIHdrs:
+		s.uhdrs.Reset()
+		if p >= 0 {
+			s.uhdrs.Init(make([]sipsp.URIHdr, p))
+		} else {
+			s.uhdrs.Init(nil)
+		}
+	default:
+		s.ResetObj(false)
+		return
+	}
+	s.vno = 0
+	s.cfg.HdrCap, s.cfg.CtCap, s.cfg.PCap = h, c, p
 }
 
 // CaseReset: a history of uses and resets on one object, then a probe input.
@@ -61,10 +106,17 @@ func evalReset(cs CaseReset) Result {
 		if !done {
 			abandoned++
 		}
-		used.ResetObj(op.UseInit)
+		if op.Switch {
+			used.reinit(op.NewHdr, op.NewCt, op.NewP)
+		} else {
+			used.ResetObj(op.UseInit)
+		}
 	}
 	used.setFlags(cs.Cfg.Flags, cs.Cfg.EndLast)
-	fresh := NewStepper(cs.Cfg)
+	// the reference: a new object with fresh arrays of the capacities now in effect
+	fcfg := cs.Cfg
+	fcfg.HdrCap, fcfg.CtCap, fcfg.PCap = used.cfg.HdrCap, used.cfg.CtCap, used.cfg.PCap
+	fresh := NewStepper(fcfg)
 	buf := []byte(cs.Probe)
 	sched := normSchedule(cs.PSch, len(buf))
 	o1, o2 := 0, 0
@@ -102,7 +154,7 @@ func evalReset(cs CaseReset) Result {
 func histStr(ops []Op) string {
 	s := ""
 	for i, op := range ops {
-		s += fmt.Sprintf("[%d: %s sched=%v abandon=%d init=%v] ", i, op.Buf, op.Sched, op.Abandon, op.UseInit)
+		s += fmt.Sprintf("[%d: %s sched=%v abandon=%d init=%v switch=%v(%d,%d,%d)] ", i, op.Buf, op.Sched, op.Abandon, op.UseInit, op.Switch, op.NewHdr, op.NewCt, op.NewP)
 	}
 	return s
 }
@@ -156,6 +208,12 @@ func genResetCase(t *rapid.T) CaseReset {
 			}
 		}
 		op.UseInit = rapid.IntRange(0, 2).Draw(t, "useinit") == 0
+		if rapid.IntRange(0, 4).Draw(t, "switch") == 0 {
+			op.Switch = true
+			op.NewHdr = pick(t, "newh", -1, -1, 0, 1, 3, 12)
+			op.NewCt = pick(t, "newc", -1, -1, 0, 1, 2, 5)
+			op.NewP = pick(t, "newp", -1, 0, 1, 3)
+		}
 		cs.Ops = append(cs.Ops, op)
 	}
 	cs.Probe = genInput()
